@@ -24,18 +24,94 @@ PHASE_FUNCS = {"create_ast", "create_ast_with_comments", "visit_Start", "transpi
                "create_dag", "ds_structure", "load_datasets", "render"}
 
 _shared_lines = None
+_shared_names = None
+
+_MUTATORS = {"append", "add", "update", "pop", "clear", "setdefault", "extend", "remove", "discard", "insert",
+             "popitem", "appendleft", "move_to_end"}
+
+
+def shared_names():
+    """Names of process-global state of the engine, found by an AST scan of /repo's current
+    working tree (so that state *added* by a change is found too): module-level names that
+    some function rebinds (`global`), mutates in place (subscript store, mutator method call),
+    class attributes that a method assigns (`cls.x = ...`, `ClassName.x = ...`), and functions
+    behind a cache decorator.  {name: [(file, why)]}"""
+    global _shared_names
+    if _shared_names is not None:
+        return _shared_names
+    import ast
+
+    out = {}
+    root = os.path.join(paths.REPO_SRC, "vtlengine")
+    for base, _dirs, files in os.walk(root):
+        for f in files:
+            if not f.endswith(".py"):
+                continue
+            p = os.path.join(base, f)
+            try:
+                with open(p, encoding="utf-8") as fh:
+                    tree = ast.parse(fh.read())
+            except (OSError, SyntaxError):
+                continue
+            modlevel, classes = set(), set()
+            for n in tree.body:
+                if isinstance(n, (ast.Assign, ast.AnnAssign)):
+                    for t in (n.targets if isinstance(n, ast.Assign) else [n.target]):
+                        if isinstance(t, ast.Name):
+                            modlevel.add(t.id)
+                elif isinstance(n, ast.ClassDef):
+                    classes.add(n.name)
+            for fn in ast.walk(tree):
+                if not isinstance(fn, (ast.FunctionDef, ast.AsyncFunctionDef)):
+                    continue
+                for d in fn.decorator_list:
+                    if "cache" in ast.unparse(d):
+                        out.setdefault(fn.name, []).append((p, "cache-decorator"))
+                params = {a.arg for a in fn.args.args + fn.args.kwonlyargs + fn.args.posonlyargs}
+                for n in ast.walk(fn):
+                    if isinstance(n, ast.Global):
+                        for g in n.names:
+                            out.setdefault(g, []).append((p, "global"))
+                    elif isinstance(n, ast.Call) and isinstance(n.func, ast.Attribute) and n.func.attr in _MUTATORS \
+                            and isinstance(n.func.value, ast.Name) and n.func.value.id in modlevel and n.func.value.id not in params:
+                        out.setdefault(n.func.value.id, []).append((p, "mutated-in-place"))
+                    elif isinstance(n, (ast.Assign, ast.AugAssign, ast.Delete, ast.AnnAssign)):
+                        tg = n.targets if isinstance(n, (ast.Assign, ast.Delete)) else [n.target]
+                        for t in tg:
+                            if isinstance(t, ast.Subscript) and isinstance(t.value, ast.Name) and t.value.id in modlevel \
+                                    and t.value.id not in params:
+                                out.setdefault(t.value.id, []).append((p, "item-assigned"))
+                            elif isinstance(t, ast.Attribute) and isinstance(t.value, ast.Name) and \
+                                    (t.value.id == "cls" or t.value.id in classes):
+                                out.setdefault(t.attr, []).append((p, "class-attribute-assigned"))
+                            elif isinstance(t, ast.Attribute) and isinstance(t.value, ast.Attribute) and t.value.attr == "__class__":
+                                out.setdefault(t.attr, []).append((p, "class-attribute-assigned"))
+    _shared_names = out
+    return out
 
 
 def shared_lines():
-    """{filename: set(line numbers)} of engine lines that touch process-global state, from a
-    regex scan of /repo's current working tree."""
+    """{filename: set(line numbers)} of engine lines that touch process-global state: the
+    textual pattern SHARED_RE plus every line mentioning a name found by shared_names()."""
     global _shared_lines
     if _shared_lines is None:
         out = {}
+        sn = shared_names()
+        plain = [n for n, why in sn.items() if len(n) > 2 and any(w[1] != "class-attribute-assigned" for w in why)]
+        attrs = [n for n, why in sn.items() if len(n) > 2 and all(w[1] == "class-attribute-assigned" for w in why)]
+        attr_files = {}
+        for n in attrs:
+            for (f, _w) in sn[n]:
+                attr_files.setdefault(f, set()).add(n)
+        pats = []
+        if plain:
+            pats.append(r"(?<![\w])(?:%s)(?![\w])" % "|".join(sorted(map(re.escape, plain))))
+        if attrs:
+            # class attributes: only in attribute position on a class object
+            pats.append(r"\b(?:cls|[A-Z]\w*)\.(?:%s)\b" % "|".join(sorted(map(re.escape, attrs))))
+        name_re = re.compile("|".join(pats)) if pats else None
         root = os.path.join(paths.REPO_SRC, "vtlengine")
         for base, _dirs, files in os.walk(root):
-            if "_cpp_parser" in base and "Grammar" in base:
-                pass
             for f in files:
                 if not f.endswith(".py"):
                     continue
@@ -43,7 +119,11 @@ def shared_lines():
                 try:
                     with open(p, encoding="utf-8") as fh:
                         for i, line in enumerate(fh, 1):
-                            if SHARED_RE.search(line) and not line.lstrip().startswith("#"):
+                            if line.lstrip().startswith("#"):
+                                continue
+                            if SHARED_RE.search(line) or (name_re is not None and name_re.search(line)):
+                                out.setdefault(p, set()).add(i)
+                            elif p in attr_files and re.search(r"\bself\.(?:%s)\b" % "|".join(sorted(attr_files[p])), line):
                                 out.setdefault(p, set()).add(i)
                 except OSError:
                     pass
